@@ -35,7 +35,9 @@ class AbstractReader(object):
             filenames.append(mibname.lower())
 
         if self.fuzzyMatching:
-            part = filenames[-1].find('-mib')
+            # (whatever spellings are switched on: the suffix is looked for
+            # in the lower-cased name)
+            part = mibname.lower().find('-mib')
             if part != -1:
                 filenames.extend(
                     [x[:part] for x in filenames]
